@@ -65,12 +65,52 @@ def jStat (s : WStat) : Json :=
 
 def jTour (t : WTour) : Json := Json.mkObj [("stops", jList jStop t.stops), ("statistic", jStat t.stat)]
 
+def parseBAct (j : Json) : R BAct := do
+  let time ← match j.getObjVal? "start", j.getObjVal? "end" with
+    | .ok s, .ok e => do pure (some (← asInt s, ← asInt e))
+    | _, _ => pure none
+  pure { type := ← strF j "type", time := time }
+
+def parseBTour (j : Json) : R BTour := do
+  let st ← fld j "statistic"
+  if (← intF st "commuting") != 0 || (← intF st "parking") != 0 then throw "commute"
+  let stops ← listF (fun s => do
+    pure ({ arrival := ← intF s "arrival", departure := ← intF s "departure", acts := ← listF parseBAct s "activities" } : BStop)) j "stops"
+  pure { stops := stops,
+         stat := ⟨← intF st "cost", ← intF st "distance", ← intF st "duration", ← intF st "driving", ← intF st "serving",
+                  ← intF st "waiting", ← intF st "break"⟩ }
+
+/-- tours of vehicles with required breaks: the break clauses on the written tour, no model -/
+def handleBreaks (impl : Json) : R (List (String × Json)) := do
+  let routes ← arrF impl "routes"
+  let tours ← arrF impl "tours"
+  let mut bad : List Json := []
+  let mut skipped := 0
+  let mut withBreak := 0
+  let mut transit := 0
+  for (rj, tj) in routes.zip tours do
+    let parsed : R (Veh × BTour) := do pure (← parseVeh (← fld rj "veh"), ← parseBTour tj)
+    match parsed with
+    | .error _ => skipped := skipped + 1
+    | .ok (v, t) =>
+      if !t.breaks.isEmpty then withBreak := withBreak + 1
+      if ((fldD tj "stops" Json.null).getArr?.toOption.getD #[]).any (fun s => (s.getObjVal? "transit").isOk) then transit := transit + 1
+      let errs := specBreakTour v t
+      if !errs.isEmpty then
+        bad := Json.mkObj [("vehicleId", fldD rj "vehicleId" Json.null), ("rules", Json.arr (errs.map Json.str).toArray)] :: bad
+  return [("model", Json.mkObj [("tours", Json.arr ((tours.map (fun _ => Json.null)).toArray))]),
+          ("oracle", Json.mkObj [("one_tour_per_route", Json.bool (routes.length == tours.length)),
+                                 ("tours_with_required_breaks_meet_the_break_clauses", Json.bool bad.isEmpty)]),
+          ("info", Json.mkObj [("bad", Json.arr bad.reverse.toArray), ("routes", jNat routes.length), ("skipped", jNat skipped),
+                               ("break_tours", jNat withBreak), ("transit_tours", jNat transit), ("activities", jNat 4)])]
+
 /-- one solved problem: every route of the core solution against the tour the real writer rendered for it -/
 def handle (j : Json) : R (List (String × Json)) := do
   let impl ← fld j "impl"
   match impl.getObjVal? "error" with
   | .ok e => return [("model", Json.null), ("oracle", Json.mkObj []), ("info", Json.mkObj [("error", e)])]
   | .error _ => pure ()
+  if (fldD j "k" Json.null) == Json.str "wbreak" then return (← handleBreaks impl)
   let routes ← arrF impl "routes"
   let tours ← arrF impl "tours"
   if routes.length != tours.length then
